@@ -141,6 +141,7 @@ func summarise(p *an.Prog, d *types.Named, m *ssa.Function) methodSummary {
 }
 
 func runC12(p *an.Prog, r *an.Run, tier string) {
+	checkSurfaceClosed(p, r)
 	iface := p.Iface("pool/store", "Store")
 	if iface == nil {
 		r.Undec("anchors", "store.Store", token.NoPos, "interface not found")
@@ -629,6 +630,7 @@ func runC12(p *an.Prog, r *an.Run, tier string) {
 	for _, d := range []*types.Named{mem, bad} {
 		checkDriverLedger(p, r, d)
 	}
+	checkLedgerWriterMethods(p, r)
 	runC11(p, r, tier)
 
 	// ---- SetNode keeps peers
